@@ -11,7 +11,8 @@ cache + SignedPacketStore actor on redb's in-memory backend) with fresh Ed25519 
 behaviour, and after every publish compares (a) the flag returned by `ZoneStore::insert`,
 (b) the packet returned by `get_signed_packet` for every key (byte-for-byte, mapped back to the
 model's (ts, payload rank)), (c) the TXT values `ZoneStore::resolve` serves, with the model.
-The same sequences' observable part through the public HTTP/DNS server is covered by C36's driver.
+A seeded sample of the same sequences is also run through the public server (`vh_dnssrv c36` driver:
+PUT status, GET /pkarr body, DNS answers over UDP).
 
 Mutation self-test (done while building, /var/tmp/mut-c37.diff, undone afterwards): in
 iroh-dns/src/pkarr.rs `more_recent_than` the tie-break `self.encoded_packet() > other.encoded_packet()`
@@ -57,12 +58,20 @@ def run(ctx):
     ctx.tlc("dnsserver", "MC_DnsServer", cfg="C37_mc.cfg", mode="mc",
             constants={"Keys": '{"k1", "k2"}', "Tss": "{1, 2, 3}", "Pls": "{1, 2}", "MaxSteps": ctx.pick(3, 4)},
             require_actions=["PutNoop", "PutUpdate", "Query"], timeout=1800)
+    everything = []
     for n, consts in enumerate(ctx.pick(CONFIGS_QUICK, CONFIGS_THOROUGH)):
         res = ctx.tlc("dnsserver", "MC_DnsServer", cfg="C37_gen.cfg", mode="gen", constants=consts,
                       require_actions=["PutNoop", "PutUpdate"], timeout=3000)
         if not res.replays:
             raise ToolError("generator produced no behaviour for %s" % consts)
         execute(ctx, res.replays, "cfg%d" % n)
+        everything += [c for c in res.replays if len(c["steps"][0]["stored"]) <= 2]
+        if not ctx.quick and n == 0:
+            selftest(ctx, res.replays[:40])
+    # the same behaviours through the public server: PUT status, GET /pkarr body, DNS answers over UDP
+    import random
+    rng = random.Random(ctx.seed)
+    execute(ctx, rng.sample(everything, min(len(everything), ctx.pick(150, 1500))), "http", http=True)
     ctx.cov["rule"] = ("every publish sequence (with repetition) of exactly MaxSteps packets over the universe "
                        "Keys x Tss x Pls (prefixes are checked step by step); non-trivial = the sequence contains a noop "
                        "or an equal-timestamp pair")
@@ -70,10 +79,16 @@ def run(ctx):
     ctx.assume("ed25519 signatures of the concretised packets verify (SignedPacket::from_bytes accepts them)")
 
 
-def execute(ctx, cases, tag):
+def execute(ctx, cases, tag, http=False):
     inp = ctx.write_ndjson("c37-%s.in" % tag, cases)
     outp = ctx.path("c37-%s.out" % tag)
-    ctx.run_bin("vh_dnssrv", ["c37", "--in", inp, "--out", outp], timeout=3000)
+    if http:
+        import os
+        ddir = ctx.path("dnsdata-%s" % tag)
+        os.makedirs(ddir, exist_ok=True)
+        ctx.run_bin("vh_dnssrv", ["c36", "--in", inp, "--out", outp, "--dir", ddir], timeout=3000)
+    else:
+        ctx.run_bin("vh_dnssrv", ["c37", "--in", inp, "--out", outp], timeout=3000)
     obs = ctx.read_ndjson(outp)
     if len(obs) != len(cases):
         raise ToolError("harness returned %d observations for %d cases" % (len(obs), len(cases)))
@@ -83,13 +98,35 @@ def execute(ctx, cases, tag):
         ress = [s["res"] for s in steps]
         tss = [(s["k"], s["ts"]) for s in steps]
         nontrivial = "noop" in ress or len(set(tss)) < len(tss)
-        ctx.count(case_key=key, nontrivial=nontrivial)
+        ctx.count(case_key=key if not http else ["http", key], nontrivial=nontrivial)
         if nontrivial and "noop" in ress and len(set(tss)) < len(tss):
             ctx.sample({"steps": [[s["k"], s["ts"], s["pl"], s["res"]] for s in steps],
                         "stored_after": steps[-1]["stored"]})
         if not o["ok"]:
             st = steps[o["step"]] if o["step"] < len(steps) else steps[-1]
             kind = o["what"].split(" for ")[0]
-            ctx.report({"kind": kind, "res": st["res"]},
+            ctx.report({"kind": kind, "res": st["res"], "via": "http+dns" if http else "zonestore"},
                        "ZoneStore deviates from the spec at step %d of %s (%s): expected %s, got %s"
                        % (o["step"], [(s["k"], s["ts"], s["pl"]) for s in steps], o["what"], o["exp"], o["got"]), c)
+
+
+def selftest(ctx, cases):
+    """Binding self-test: flip one expectation per behaviour; the driver must reject every one."""
+    import copy
+    flipped = []
+    for i, c in enumerate(cases):
+        c = copy.deepcopy(c)
+        st = c["steps"][-1]
+        if i % 2 == 0:
+            st["res"] = "noop" if st["res"] == "updated" else "updated"
+        else:
+            k = st["k"]
+            st["stored"][k]["pl"] = 3 - st["stored"][k]["pl"] if st["stored"][k]["pl"] in (1, 2) else 1
+        flipped.append(c)
+    inp = ctx.write_ndjson("c37-selftest.in", flipped)
+    outp = ctx.path("c37-selftest.out")
+    ctx.run_bin("vh_dnssrv", ["c37", "--in", inp, "--out", outp])
+    rejected = sum(1 for o in ctx.read_ndjson(outp) if not o["ok"])
+    ctx.cov["binding_selftests"] = {"flipped_expectations": len(flipped), "rejected": rejected}
+    if rejected != len(flipped):
+        raise ToolError("binding self-test: only %d of %d flipped expectations were rejected" % (rejected, len(flipped)))
